@@ -449,6 +449,68 @@ pub fn manyrecs(ctx: &Ctx) -> Stats {
     })
 }
 
+/// a counts table of well over a megabyte (>= 100 000 distinct k-mers) in which *every* k-mer is present at least
+/// bin-size times: no window may fall into bin 0, so a single k-mer that goes missing while the table is written,
+/// merged or loaded (by any number of workers) shows up as a non-zero first column
+pub fn bigtable(ctx: &Ctx) -> Stats {
+    let n = ctx.n(4, 30);
+    let mut st = Stats::new();
+    for idx in 0..n {
+        if ctx.expired() {
+            st.truncated = true;
+            break;
+        }
+        let mut rng = Rng::keyed(ctx.seed, "c08.bigtable", idx);
+        let k = rng.usize(13, 17);
+        let copies = rng.usize(5, 7);
+        let bin_size = copies; // floor(c / bin_size) >= 1 for every k-mer
+        let bin_count = rng.usize(3, 6);
+        // quick: 120-300 thousand distinct k-mers (table of 1.4-3.5 MB); thorough: up to about 10 MB
+        let nbase = if ctx.tier == Tier::Quick { rng.usize(3, 5) } else { rng.usize(4, 16) };
+        let base: Vec<Rec> = (0..nbase)
+            .map(|i| Rec { id: format!("t{}", i), desc: None, seq: (0..rng.usize(40_000, 60_000)).map(|_| *rng.pick(b"ACGT")).collect() })
+            .collect();
+        let mut recs: Vec<Rec> = Vec::new();
+        for c in 0..copies {
+            for r in &base {
+                recs.push(Rec { id: format!("{}c{}", r.id, c), desc: None, seq: r.seq.clone() });
+            }
+        }
+        let threads = [16usize, 8, 3, 2][(idx % 4) as usize];
+        let cfg = CovCfg { k, bin_size, bin_count, norm: false, threads, mem_gb: 6.0, delim: " ".into(), alt: false };
+        let sc = Scratch::new(ctx, "c08t");
+        let inp = sc.write("in.fa", &ser::to_fasta(&recs, &SerOpts::plain()));
+        let distinct: usize = base.iter().map(|r| r.seq.len().saturating_sub(k - 1)).sum();
+        st.case(true, mix(idx) ^ hash_bytes(&base[0].seq));
+        st.class(&format!("threads={}", threads));
+        let case = || Json::obj().set("cfg", cfg.json()).set("n_records", Json::u(recs.len())).set("copies", Json::u(copies)).set("approx_distinct_kmers", Json::u(distinct)).set("base_records", super::oligo::recs_json(&base));
+        let out_dir = sc.subdir("o");
+        match run_cov(&inp, None, &out_dir, &cfg) {
+            Ok(d) => {
+                let table_bytes = std::fs::metadata(format!("{}/kmers.counts", out_dir)).map(|m| m.len()).unwrap_or(0);
+                // first the cheap, model-free monitor: column 0 must be zero in every row
+                let mut bad0 = None;
+                for (i, l) in lines(&d).iter().enumerate() {
+                    let first = split_fields(l, b" ").first().and_then(|f| parse_f64(f));
+                    if first != Some(0.0) {
+                        bad0 = Some((i, first));
+                        break;
+                    }
+                }
+                if let Some((i, v)) = bad0 {
+                    st.violate("cov.bigtable.bin0", format!("row {}: {:?} windows in bin 0 although every k-mer occurs at least {} times (bin size {}); table of {} bytes, {} threads", i, v, copies, bin_size, table_bytes, threads), case());
+                } else if let Err((sig, msg)) = check_vectors(&d, &recs, &recs, &cfg) {
+                    st.violate(&format!("{}:bigtable", sig), msg, case());
+                } else {
+                    st.sample(Json::obj().set("cfg", cfg.json()).set("records", Json::u(recs.len())).set("counts_table_bytes", Json::Int(table_bytes as i128)).set("approx_distinct_kmers", Json::u(distinct)));
+                }
+            }
+            Err((sig, msg)) => st.violate(&sig, msg, case()),
+        }
+    }
+    st
+}
+
 /// multiplicities that are *exact multiples* of the bin size, for bin sizes 1..=300: the read is present
 /// bin_size*j times, so each of its windows must land exactly in bin j (or the last bin)
 pub fn exact_multiples(ctx: &Ctx) -> Stats {
